@@ -71,7 +71,7 @@ class Exploding:
 
 PLAIN_KINDS = ("int", "str", "bytes", "float", "none", "list", "tuple", "dict", "ndarray", "series")
 KINDS = PLAIN_KINDS + ("set", "frozenset", "reclist", "recdict", "point", "partial", "func", "custom",
-                       "nested_tok")
+                       "nested_tok", "fsset", "tupset")
 
 
 def gen_spec(tape, depth=0, plain=False):
@@ -103,6 +103,13 @@ def gen_spec(tape, depth=0, plain=False):
         return ["series", [tape.draw(100, "sv") for _ in range(n)], f"name{tape.draw(3, 'nm')}"]
     if k in ("set", "frozenset"):
         return [k, sorted({f"e{tape.draw(30, 'se')}" for _ in range(tape.draw(5, "n"))})]
+    if k == "fsset":
+        # a set of frozensets of small ints (members that "<" only partially orders, and whose own
+        # iteration order depends on the insertion order when hashes collide modulo the table size)
+        return ["fsset", [sorted({tape.draw(4, "fe") * 8 + tape.draw(2, "fo") for _ in range(1 + tape.draw(3, "fn"))})
+                          for _ in range(tape.draw(5, "n"))]]
+    if k == "tupset":
+        return ["tupset", sorted({(tape.draw(3, "ta") * 8, f"t{tape.draw(3, 'tb')}") for _ in range(tape.draw(5, "n"))})]
     if k == "reclist":
         return ["reclist", [gen_spec(tape, depth + 1, True) for _ in range(tape.draw(3, "n"))]]
     if k == "recdict":
@@ -118,7 +125,11 @@ def gen_spec(tape, depth=0, plain=False):
     return ["nested_tok", gen_spec(tape, depth + 1, plain)]
 
 
-def build(spec):
+def build(spec, rev=False):
+    """rev: an equal value whose sets and dicts were filled in the opposite insertion order
+    (equal values must tokenize alike whatever their iteration order)."""
+    if rev:
+        return _build_rev(spec)
     k = spec[0]
     if k in ("int", "str", "float"):
         return spec[1]
@@ -149,6 +160,10 @@ def build(spec):
         return set(spec[1])
     if k == "frozenset":
         return frozenset(spec[1])
+    if k == "fsset":
+        return {frozenset(m) for m in spec[1]}
+    if k == "tupset":
+        return {tuple(m) for m in spec[1]}
     if k == "reclist":
         lst = [build(s) for s in spec[1]]
         lst.append(lst)
@@ -172,3 +187,33 @@ def build(spec):
     if k == "exploding":
         return Exploding(build(spec[1]))
     raise AssertionError(k)
+
+
+def _filled(typ, items):
+    out = set()
+    for it in items:
+        out.add(it)
+    return out if typ is set else frozenset(out)
+
+
+def _build_rev(spec):
+    k = spec[0]
+    if k == "list":
+        return [_build_rev(s) for s in spec[1]]
+    if k == "tuple":
+        return tuple(_build_rev(s) for s in spec[1])
+    if k == "dict":
+        return {kk: _build_rev(v) for kk, v in reversed(spec[1])}
+    if k in ("set", "frozenset"):
+        return _filled(set if k == "set" else frozenset, reversed(spec[1]))
+    if k == "fsset":
+        return _filled(set, [_filled(frozenset, reversed(m)) for m in reversed(spec[1])])
+    if k == "tupset":
+        return _filled(set, [tuple(m) for m in reversed(spec[1])])
+    if k == "point":
+        return Point(_build_rev(spec[1]), _build_rev(spec[2]))
+    if k == "custom":
+        return Custom(_build_rev(spec[1]))
+    if k == "nested_tok":
+        return NestedTokenizer(_build_rev(spec[1]))
+    return build(spec)
